@@ -26,6 +26,7 @@ MC_Fns == {"sin", "abs", "asin"}
 MC_SOps == {"+", "*"}
 MC_VOps == {"+", "-", "*", "/", "**"}
 MC_Senses == {}
+MC_ObjCands == {}
 MC_Stages == <<>>
 MC_FinalEn == {}
 MC_SingValues == {}
